@@ -22,6 +22,9 @@ type c03Case struct {
 	// Prev != nil: the middleware is created with Prev, serves Req once, is then reconfigured to Cfg and serves
 	// Req again; the invariants are checked on the second response (state left behind by earlier calls)
 	Prev *CfgLit `json:"previous_config,omitempty"`
+	// FailingFirst (with Prev): the first request is served with debug off and asks for method DELETE and header x-zz
+	// instead (under most configurations it passes the origin step and fails later); debug is set after Reconfigure
+	FailingFirst bool `json:"first_request_fails_late,omitempty"`
 	// Scribbled: before the request under test the middleware (same configuration) serves the request, a non-CORS
 	// GET and one actual request per configured origin pattern with a handler that overwrites in place every header
 	// slice it can reach
@@ -198,15 +201,25 @@ func c03Judge(k c03Case) *vlib.Failure {
 	}
 	scribbleConfig(&cfg0)
 	scribbleConfig(m.Config())
-	m.SetDebug(k.Debug)
+	m.SetDebug(k.Debug && !k.FailingFirst)
 	if k.Prev != nil {
 		// the first request is served with a handler that overwrites in place every header slice it can reach
-		m.Wrap(scribbler{}).ServeHTTP(vlib.NewRec(), k.Req.HTTP())
+		firstReq := k.Req
+		if k.FailingFirst {
+			hdr := map[string][]string{}
+			for hk, hv := range k.Req.Hdr {
+				hdr[hk] = hv
+			}
+			hdr["Access-Control-Request-Method"], hdr["Access-Control-Request-Headers"] = []string{"DELETE"}, []string{"x-zz"}
+			firstReq = vlib.Req{Method: k.Req.Method, Hdr: hdr}
+		}
+		m.Wrap(scribbler{}).ServeHTTP(vlib.NewRec(), firstReq.HTTP())
 		cfg := k.Cfg.Config()
 		if err := m.Reconfigure(&cfg); err != nil {
 			return vlib.Failf("configuration of the C03 alphabet rejected by Reconfigure: %v", err)
 		}
 		scribbleConfig(&cfg)
+		m.SetDebug(k.Debug)
 	}
 	if k.Scribbled {
 		h := m.Wrap(scribbler{})
@@ -580,6 +593,11 @@ func checkC03(c *vlib.Ctx) (string, string) {
 		k := c03Case{Cfg: cfgs[ix[1]], Debug: ix[2] == 1, Req: histReqs[ix[3]], Prev: &prev}
 		c.Transitions.Add(3)
 		ck.Try(k)
+		if _, pre := k.Req.Hdr["Access-Control-Request-Method"]; pre && k.Req.Method == "OPTIONS" {
+			k.FailingFirst = true
+			c.Transitions.Add(3)
+			ck.Try(k)
+		}
 	})
 	c.States.Add(hp.Count())
 	c.Set("history_sequences", hp.Count())
